@@ -217,3 +217,44 @@ PROPS["C04"]["harnesses"] += [
         {"entry": "pkg/decode.VerifCoverErrors", "clause": "FillGaps cover + gap content on program errors", "bounds": {"buffer_bytes": "0..6", "widths": "1,8,13,17"}}
 ]
 PROPS["C04"]["explanation"] += "; and D.FillGaps on the decode trees of the 10 C03 programs: cover property for a symbolic bit position over the real leaf ranges, gap readers yield exactly the input bits"
+
+
+PROPS["C12"] = {
+    "level": "model_checking",
+    "explanation": "on the decode trees of the 10 C03 programs (every truncation, nested roots, gap fields, out-of-order fields): folding the real valuePath(v) through the real JQValueKey/JQValueIndex of the struct/array decode values arrives at the same *decode.Value; _parent/_root/_buffer_root/_format_root/_index/_name agree with the tree",
+    "wall_quick": 1200, "wall_thorough": 3600,
+    "harnesses": [
+        {"entry": "pkg/interp.VerifNavFlat", "clause": "path <-> navigation on the trees of program flat (one value per path)", "bounds": {"buffer_bytes": "0..6", "data": "fixed bytes (navigation does not depend on data)"}},
+        {"entry": "pkg/interp.VerifNavNested", "clause": "path <-> navigation on the trees of program nested (one value per path)", "bounds": {"buffer_bytes": "0..6", "data": "fixed bytes (navigation does not depend on data)"}},
+        {"entry": "pkg/interp.VerifNavSeek", "clause": "path <-> navigation on the trees of program seek (one value per path)", "bounds": {"buffer_bytes": "0..6", "data": "fixed bytes (navigation does not depend on data)"}},
+        {"entry": "pkg/interp.VerifNavFramed", "clause": "path <-> navigation on the trees of program framed (one value per path)", "bounds": {"buffer_bytes": "0..6", "data": "fixed bytes (navigation does not depend on data)"}},
+        {"entry": "pkg/interp.VerifNavRanges", "clause": "path <-> navigation on the trees of program ranges (one value per path)", "bounds": {"buffer_bytes": "0..6", "data": "fixed bytes (navigation does not depend on data)"}},
+        {"entry": "pkg/interp.VerifNavSubformat", "clause": "path <-> navigation on the trees of program subformat (one value per path)", "bounds": {"buffer_bytes": "0..6", "data": "fixed bytes (navigation does not depend on data)"}},
+        {"entry": "pkg/interp.VerifNavNestedRoot", "clause": "path <-> navigation on the trees of program nestedroot (one value per path)", "bounds": {"buffer_bytes": "0..6", "data": "fixed bytes (navigation does not depend on data)"}},
+        {"entry": "pkg/interp.VerifNavLoop", "clause": "path <-> navigation on the trees of program loop (one value per path)", "bounds": {"buffer_bytes": "0..6", "data": "fixed bytes (navigation does not depend on data)"}},
+        {"entry": "pkg/interp.VerifNavSymLayout", "clause": "path <-> navigation on the trees of program symlayout (one value per path)", "bounds": {"buffer_bytes": "0..6", "data": "fixed bytes (navigation does not depend on data)"}},
+        {"entry": "pkg/interp.VerifNavErrors", "clause": "path <-> navigation on the trees of program errors (one value per path)", "bounds": {"buffer_bytes": "0..6", "data": "fixed bytes (navigation does not depend on data)"}}
+    ],
+    "assumptions": ["buffers hold fixed bytes: the checked relations are independent of the data; the symbolic variables are the structure parameters (widths, counts, seek targets, lengths, symbolic field ranges in symlayout)"],
+    "outside": ["_path_to_expr / _expr_to_path (jq text over arbitrary strings): not encodable", "registered formats"],
+}
+
+PROPS["C05"] = {
+    "level": "model_checking",
+    "explanation": "for every value of the C03 trees over symbolic buffers: the real ToBinary/_toBits (unit 1 and 8, keep_range), the _bits/_bytes keys and Binary.toReader yield exactly the input bits of the value's inner range (byte form left padded with zero bits); every bits_format renderer and raw display against 10-line reference encoders",
+    "wall_quick": 1500, "wall_thorough": 3600,
+    "harnesses": [
+        {"entry": "pkg/interp.VerifToBitsFlat", "clause": "tobits/tobytes/tobytesrange/._bits/._bytes of every value of the trees of program flat", "bounds": {"buffer_bytes": "0..6 symbolic"}},
+        {"entry": "pkg/interp.VerifToBitsNested", "clause": "tobits/tobytes/tobytesrange/._bits/._bytes of every value of the trees of program nested", "bounds": {"buffer_bytes": "0..6 symbolic"}},
+        {"entry": "pkg/interp.VerifToBitsSeek", "clause": "tobits/tobytes/tobytesrange/._bits/._bytes of every value of the trees of program seek", "bounds": {"buffer_bytes": "0..6 symbolic"}},
+        {"entry": "pkg/interp.VerifToBitsFramed", "clause": "tobits/tobytes/tobytesrange/._bits/._bytes of every value of the trees of program framed", "bounds": {"buffer_bytes": "0..6 symbolic"}},
+        {"entry": "pkg/interp.VerifToBitsRanges", "clause": "tobits/tobytes/tobytesrange/._bits/._bytes of every value of the trees of program ranges", "bounds": {"buffer_bytes": "0..6 symbolic"}},
+        {"entry": "pkg/interp.VerifToBitsSubformat", "clause": "tobits/tobytes/tobytesrange/._bits/._bytes of every value of the trees of program subformat", "bounds": {"buffer_bytes": "0..6 symbolic"}},
+        {"entry": "pkg/interp.VerifToBitsNestedRoot", "clause": "tobits/tobytes/tobytesrange/._bits/._bytes of every value of the trees of program nestedroot", "bounds": {"buffer_bytes": "0..6 symbolic"}},
+        {"entry": "pkg/interp.VerifToBitsLoop", "clause": "tobits/tobytes/tobytesrange/._bits/._bytes of every value of the trees of program loop", "bounds": {"buffer_bytes": "0..6 symbolic"}},
+        {"entry": "pkg/interp.VerifToBitsErrors", "clause": "tobits/tobytes/tobytesrange/._bits/._bytes of every value of the trees of program errors", "bounds": {"buffer_bytes": "0..6 symbolic"}},
+        {"entry": "pkg/interp.VerifBitsFormat", "clause": "bits_format string/hex/base64/byte_array/truncate/md5 and raw display = reference encoding of the byte view", "bounds": {"buffer_bytes": 4, "start": "0..9", "len": "0..19", "pad": "0 or to byte boundary"}},
+    ],
+    "assumptions": ["the _bits/_bytes keys are read through decodeValueBase.JQValueKey (the code that builds the binary); the wrapper that first forces a raw leaf's lazy string is bypassed for raw leaves"],
+    "outside": ["the jq glue (decode.jq tobits/tobytes wrappers)", "stdout plumbing", "truncate's 1024 byte boundary and snippet", "values > 6 bytes"],
+}
